@@ -240,6 +240,14 @@ impl TransportManagerHandle {
         let mut peer_addresses = HashSet::new();
 
         for address in addresses {
+            // Add the provided peer ID to an address that names no peer. This must be done before
+            // checking the transport, as only addresses ending with a peer ID are dialable.
+            let address = if address.iter().any(|p| std::matches!(p, Protocol::P2p(_))) {
+                address
+            } else {
+                address.with(Protocol::P2p((*peer).into()))
+            };
+
             // There is not supported transport configured that can dial this address.
             if !self.supported_transport(&address) {
                 continue;
